@@ -6,6 +6,8 @@ import Generated.C10VmLocks
 import Generated.C10PathLocks
 import Proofs.Lemmas.Publish
 import Generated.C10Publish
+import Proofs.Lemmas.Split
+import Generated.C10LockNames
 /-!
 # C10 — VM registries stay consistent under concurrent definition and lookup
 
@@ -38,6 +40,12 @@ Property theorems only.
   moment of their lookup.  Observers only ever see finished objects iff no write follows the publication;
   the discipline is read off `Generated.C10Publish.pubFacts` (every `AddClass` / `AddInterface` / `AddFunc` /
   `SetConstant` call of parser/, node/, runtime/ with the writes to the published object after it).
+
+* `Model.Split` — a LOCK SPLIT: any number of mutexes, one map, check-then-insert sections
+  (`EnsureGlobalZVal`, `RegisterGlobalContext`) each under the mutex its method takes.  All sections under the
+  SAME mutex ⇒ a name is bound once in every schedule; two writers under different mutexes ⇒ one name gets two
+  bindings.  The discipline is read off `Generated.C10LockNames` (every access of a guarded map with the NAMES of
+  the receiver's mutexes held there).
 
 Trusted, not proved: `sync.RWMutex` behaves as `Model.RW.enter/leave`; Go's memory
 model (accesses that never overlap conflictingly behave atomically).  The race
@@ -885,5 +893,122 @@ example : (⟨true, true⟩ : Model.Memo.Disc).ok = true ∧
     Model.Memo.auxViolations [⟨"AddClass", "classMiss", .wr, .W, true, true⟩,
       ⟨"scanClass", "classMiss", .wr, .R, true, true⟩,
       ⟨"findClassCaseInsensitive", "classMiss", .rd, .none, true, false⟩] = [] := by decide
+
+/-! ## Round 8 — one lock per map (Model.Split) -/
+
+/-- **Obligation (regenerated facts with lock names)**: every access of a guarded map of `runtime.VM` and of the
+class-path manager holds a mutex, and all accesses of one map hold the SAME mutex — a lock split that converts
+some but not all accessors of a map (`EnsureGlobalZVal` under `valMu`, `RegisterGlobalContext` still under `mu`)
+fails here by name. -/
+theorem C10_one_lock_per_map :
+    Model.Split.oneLock Generated.C10LockNames.vm = true ∧ Model.Split.oneLock Generated.C10LockNames.paths = true ∧
+    Generated.C10LockNames.shape = [] := by decide
+
+/-- what the decidable obligation says: two facts about the same map name the same lock(s), none of them "" -/
+theorem C10_oneLock_spec (tbl : List Model.Split.LockFact) (h : Model.Split.oneLock tbl = true) :
+    ∀ f ∈ tbl, f.locks ≠ "" ∧ ∀ g ∈ tbl, f.map = g.map → f.locks = g.locks := by
+  intro f hf
+  simp only [Model.Split.oneLock, List.all_eq_true, Bool.and_eq_true, Bool.or_eq_true, bne_iff_ne, beq_iff_eq] at h
+  obtain ⟨h1, h2⟩ := h f hf
+  refine ⟨h1, fun g hg hm => ?_⟩
+  rcases h2 g hg with h3 | h3
+  · exact absurd hm h3
+  · exact h3
+
+/-- **A name is bound once** (full strength: any number of goroutines, calls, mutexes and names, every schedule):
+if all binding sections hold the same mutex, every two responses for one name carry the same binding. -/
+theorem C10_split_bound_once (prog : Model.Split.Tid → List Model.Split.Sec) (h : Model.Split.SameLock prog)
+    (sched : List Model.Split.Tid) :
+    Model.Split.BoundOnce (Model.Split.run (Model.Split.init prog) sched).log := by
+  have key : ∃ ℓ, ∀ t sec, sec ∈ prog t → sec.lk = ℓ := by
+    by_cases hex : ∃ t sec, sec ∈ prog t
+    · obtain ⟨t0, sec0, h0⟩ := hex
+      exact ⟨sec0.lk, fun t sec hm => h t sec hm t0 sec0 h0⟩
+    · exact ⟨0, fun t sec hm => absurd ⟨t, sec, hm⟩ hex⟩
+  obtain ⟨ℓ, hℓ⟩ := key
+  have inv := Model.Split.inv_run (ℓ := ℓ) sched (Model.Split.inv_init ℓ prog hℓ)
+  intro e₁ h₁ e₂ h₂ heq
+  have a := inv.logged e₁ h₁
+  have b := inv.logged e₂ h₂
+  rw [heq] at a
+  rw [a] at b
+  exact Option.some.inj b
+
+/-- **A completed binding is what every later call returns**: under the discipline a binding present in the
+table at some point is still the binding after any further schedule, and every response agrees with the table. -/
+theorem C10_split_binding_stable (prog : Model.Split.Tid → List Model.Split.Sec) (h : Model.Split.SameLock prog)
+    (s₁ s₂ : List Model.Split.Tid) (n : Model.Split.Name) (v : Model.Split.Val)
+    (hb : (Model.Split.run (Model.Split.init prog) s₁).store n = some v) :
+    (Model.Split.run (Model.Split.run (Model.Split.init prog) s₁) s₂).store n = some v ∧
+    ∀ e ∈ (Model.Split.run (Model.Split.run (Model.Split.init prog) s₁) s₂).log, e.1 = n → e.2 = v := by
+  have key : ∃ ℓ, ∀ t sec, sec ∈ prog t → sec.lk = ℓ := by
+    by_cases hex : ∃ t sec, sec ∈ prog t
+    · obtain ⟨t0, sec0, h0⟩ := hex
+      exact ⟨sec0.lk, fun t sec hm => h t sec hm t0 sec0 h0⟩
+    · exact ⟨0, fun t sec hm => absurd ⟨t, sec, hm⟩ hex⟩
+  obtain ⟨ℓ, hℓ⟩ := key
+  have inv₁ := Model.Split.inv_run (ℓ := ℓ) s₁ (Model.Split.inv_init ℓ prog hℓ)
+  have st := Model.Split.store_stable_run s₂ inv₁ hb
+  refine ⟨st, fun e he hn => ?_⟩
+  have a := (Model.Split.inv_run s₂ inv₁).logged e he
+  rw [hn, st] at a
+  exact (Option.some.inj a).symm
+
+/-- the lock split: goroutine 0 binds name 7 under mutex 0 (`RegisterGlobalContext`, `vm.mu`), goroutine 1 binds it
+under mutex 1 (`EnsureGlobalZVal`, `vm.valMu`) -/
+def splitProgs : Model.Split.Tid → List Model.Split.Sec
+  | 0 => [⟨0, 7, 100⟩]
+  | 1 => [⟨1, 7, 200⟩]
+  | _ => []
+
+/-- **Negation witness**: with the two writers under DIFFERENT mutexes both look the name up before either
+inserts; the name is bound twice (the two calls are answered with different bindings, the first binding is
+lost from the table) — the harness meets this on the real code as `fatal error: concurrent map writes`. -/
+theorem C10_split_counterexample :
+    ¬ Model.Split.SameLock splitProgs ∧
+    (Model.Split.run (Model.Split.init splitProgs) [0, 1, 0, 1, 0, 1, 0, 1]).log = [(7, 200), (7, 100)] ∧
+    ¬ Model.Split.BoundOnce (Model.Split.run (Model.Split.init splitProgs) [0, 1, 0, 1, 0, 1, 0, 1]).log := by
+  have hlog : (Model.Split.run (Model.Split.init splitProgs) [0, 1, 0, 1, 0, 1, 0, 1]).log = [(7, 200), (7, 100)] := by
+    decide
+  refine ⟨?_, hlog, ?_⟩
+  · intro h
+    have := h 0 ⟨0, 7, 100⟩ (by simp [splitProgs]) 1 ⟨1, 7, 200⟩ (by simp [splitProgs])
+    simp at this
+  · intro h
+    rw [hlog] at h
+    have := h (7, 200) (by simp) (7, 100) (by simp) rfl
+    simp at this
+
+/-- sections drawn from the facts of one map: a call of a method the table lists for `m`, under the mutex (index
+`idx` of its name) the table gives for it -/
+def SecsFrom (tbl : List Model.Split.LockFact) (idx : String → Model.Split.Lock) (m : String)
+    (prog : Model.Split.Tid → List Model.Split.Sec) : Prop :=
+  ∀ t sec, sec ∈ prog t → ∃ f ∈ tbl, f.map = m ∧ sec.lk = idx f.locks
+
+/-- **Instantiated by the regenerated facts**: for every guarded map of `runtime.VM`, any goroutines running any
+binding calls through the methods the facts list for that map bind every name once, in every schedule. -/
+theorem C10_split_generated (idx : String → Model.Split.Lock) (m : String)
+    (prog : Model.Split.Tid → List Model.Split.Sec) (h : SecsFrom Generated.C10LockNames.vm idx m prog)
+    (sched : List Model.Split.Tid) :
+    Model.Split.BoundOnce (Model.Split.run (Model.Split.init prog) sched).log := by
+  apply C10_split_bound_once
+  intro t sec hs t' sec' hs'
+  obtain ⟨f, hf, hfm, hfl⟩ := h t sec hs
+  obtain ⟨g, hg, hgm, hgl⟩ := h t' sec' hs'
+  have := (C10_oneLock_spec _ C10_one_lock_per_map.1 f hf).2 g hg (hfm.trans hgm.symm)
+  rw [hfl, hgl, this]
+
+/-- `C10_split_bound_once` is not vacuous: the same two writers under ONE mutex — the schedule of the
+counterexample serialises them, both calls are answered with the first binding -/
+example : Model.Split.SameLock (fun t => (splitProgs t).map fun s => { s with lk := 0 }) ∧
+    (Model.Split.run (Model.Split.init (fun t => (splitProgs t).map fun s => { s with lk := 0 })) [0, 1, 0, 1, 0, 1, 0, 1, 1, 1, 1]).log
+      = [(7, 100), (7, 100)] ∧
+    Model.Split.oneLock [⟨"EnsureGlobalZVal", "globalVars", "valMu"⟩, ⟨"RegisterGlobalContext", "globalVars", "mu"⟩] = false := by
+  refine ⟨?_, by decide, by decide⟩
+  intro t sec hs t' sec' hs'
+  simp only [List.mem_map] at hs hs'
+  obtain ⟨a, _, rfl⟩ := hs
+  obtain ⟨b, _, rfl⟩ := hs'
+  rfl
 
 end C10
